@@ -19,14 +19,68 @@ Proof.
   constructor; assumption.
 Qed.
 
-Lemma bstep_binv acts evs b order a b' e :
-  binv acts evs b -> wf_act a -> bstep b order a = (b', e) -> binv (acts ++ [a]) (evs ++ e) b'.
+
+(* ---- stamping the encoder's table size changes nothing but [tab_of] *)
+Lemma stamp_dlen t w : dlen (stamp t w) = dlen w.
+Proof. destruct w; reflexivity. Qed.
+Lemma stamp_wsid t w : wsid (stamp t w) = wsid w.
+Proof. destruct w; reflexivity. Qed.
+Lemma stamp_unq t w : unq (stamp t w) = unq w.
+Proof. destruct w; try reflexivity; try (destruct push; reflexivity). Qed.
+Lemma stamp_cred t s w : cred s (stamp t w) = cred s w.
+Proof. destruct w; reflexivity. Qed.
+Lemma stamp_is_direct t w : is_direct (stamp t w) = is_direct w.
+Proof. destruct w; reflexivity. Qed.
+Lemma stamp_direct_id t w : is_direct w = true -> stamp t w = w.
+Proof. destruct w; simpl; intros; try discriminate; reflexivity. Qed.
+Lemma on_stream_stamp t s ws : on_stream s (map (stamp t) ws) = map (stamp t) (on_stream s ws).
+Proof.
+  unfold on_stream. induction ws as [|w l IH]; simpl; auto. rewrite stamp_wsid.
+  destruct (wsid w) as [k|]; [|assumption]. destruct (N.eqb k s); simpl; [f_equal|]; assumption.
+Qed.
+Lemma dlen_stamp t ws : zsum (map dlen (map (stamp t) ws)) = zsum (map dlen ws).
+Proof. induction ws as [|w l IH]; simpl; auto. rewrite stamp_dlen, IH. reflexivity. Qed.
+Lemma emq_stamp t ws : emq (map (stamp t) ws) = emq ws.
+Proof. unfold emq. induction ws as [|w l IH]; simpl; auto. rewrite stamp_unq, IH. reflexivity. Qed.
+Lemma wseqs_stamp t ws : wseqs (map (stamp t) ws) = wseqs ws.
+Proof. unfold wseqs. induction ws as [|w l IH]; simpl; auto. rewrite IH. destruct w; reflexivity. Qed.
+Lemma dsum_stamp t s ws : dsum s (map (stamp t) ws) = dsum s ws.
+Proof. unfold dsum. rewrite on_stream_stamp, dlen_stamp. reflexivity. Qed.
+
+Lemma core_proj_ext x wuc wus ini enq evs evs' fl :
+  sentc x evs = sentc x evs' -> (forall s, sents x s evs = sents x s evs') ->
+  (forall s, emq (on_stream s (to_side x evs)) = emq (on_stream s (to_side x evs'))) ->
+  block_seqs x evs = block_seqs x evs' ->
+  core x wuc wus ini enq evs fl -> core x wuc wus ini enq evs' fl.
+Proof.
+  intros H1 H2 H3 H4 C. destruct C. constructor; auto.
+  - rewrite <- H1. assumption.
+  - intros s w q H. rewrite <- H2. eauto.
+  - intros s. rewrite <- H3. auto.
+  - intros s H. rewrite <- H2. auto.
+  - rewrite <- H4. assumption.
+Qed.
+
+Lemma core_stamp x wuc wus ini enq evs fl ws t :
+  core x wuc wus ini enq (evs ++ tag x ws) fl ->
+  core x wuc wus ini enq (evs ++ tag x (map (stamp t) ws)) fl.
+Proof.
+  apply core_proj_ext.
+  - rewrite !sentc_app, !sentc_tag, dlen_stamp. reflexivity.
+  - intros s. rewrite !sents_app, !sents_tag, on_stream_stamp, dlen_stamp. reflexivity.
+  - intros s. rewrite !to_side_app, !to_side_tag_same, !on_stream_app, !emq_app, on_stream_stamp, emq_stamp. reflexivity.
+  - rewrite !block_seqs_app, !block_seqs_tag, wseqs_stamp. reflexivity.
+Qed.
+
+Lemma bstep_binv tabs acts evs b order a b' e :
+  binv acts evs b -> wf_act a -> bstep tabs b order a = (b', e) -> binv (acts ++ [a]) (evs ++ e) b'.
 Proof.
   intros I Hwf H. unfold bstep in H.
   destruct (flow_act (getf b (act_side a)) order a) as [x' ws] eqn:F. inversion H; subst.
   intros x. destruct (side_eqb (act_side a) x) eqn:E.
   - apply side_eqb_eq in E. subst x. rewrite getf_setf_same.
-    eapply flow_act_finv; eauto.
+    destruct (flow_act_finv _ _ _ _ _ _ _ _ (I (act_side a)) eq_refl Hwf F) as [C B].
+    split; [apply core_stamp; assumption|assumption].
   - assert (Hn : act_side a <> x) by (intros Heq; rewrite Heq, side_eqb_refl in E; discriminate).
     rewrite getf_setf_other by congruence.
     destruct (I x) as [C B]. split; [|assumption].
@@ -36,42 +90,42 @@ Proof.
     rewrite to_side_app, to_side_tag_other by assumption. symmetry. apply app_nil_r.
 Qed.
 
-Lemma bsteps_binv order acts2 : forall acts evs b b' e,
-  binv acts evs b -> Forall wf_act acts2 -> bsteps b order acts2 = (b', e) ->
+Lemma bsteps_binv tabs order acts2 : forall acts evs b b' e,
+  binv acts evs b -> Forall wf_act acts2 -> bsteps tabs b order acts2 = (b', e) ->
   binv (acts ++ acts2) (evs ++ e) b'.
 Proof.
   induction acts2 as [|a t IH]; intros acts evs b b' e I Hwf H; simpl in H.
   - inversion H; subst. rewrite !app_nil_r. assumption.
-  - destruct (bstep b order a) as [b1 e1] eqn:E1. destruct (bsteps b1 order t) as [b2 e2] eqn:E2.
+  - destruct (bstep tabs b order a) as [b1 e1] eqn:E1. destruct (bsteps tabs b1 order t) as [b2 e2] eqn:E2.
     inversion H; subst. inversion Hwf; subst.
     replace (acts ++ a :: t) with ((acts ++ [a]) ++ t) by (rewrite <- app_assoc; reflexivity).
     rewrite app_assoc. eapply IH; eauto. eapply bstep_binv; eauto.
 Qed.
 
 (* ------------------------------------------------- label-level window safety *)
-Lemma bstep_other_side b order a b' e x :
-  bstep b order a = (b', e) -> act_side a <> x -> getf b' x = getf b x /\ to_side x e = [].
+Lemma bstep_other_side tabs b order a b' e x :
+  bstep tabs b order a = (b', e) -> act_side a <> x -> getf b' x = getf b x /\ to_side x e = [].
 Proof.
   unfold bstep. destruct (flow_act (getf b (act_side a)) order a) as [x' ws]. intros H Hn.
   inversion H; subst. split; [apply getf_setf_other; congruence|apply to_side_tag_other; assumption].
 Qed.
 
-Lemma sents_dsum x s t ws : t = x -> sents x s (tag t ws) = dsum s ws.
-Proof. intros ->. unfold dsum. apply sents_tag. Qed.
+Lemma sents_dsum x s t tb ws : t = x -> sents x s (tag t (map (stamp tb) ws)) = dsum s ws.
+Proof. intros ->. rewrite <- (dsum_stamp tb). unfold dsum. apply sents_tag. Qed.
 Lemma sents_nil_side x s e : to_side x e = [] -> sents x s e = 0.
 Proof. unfold sents. intros ->. reflexivity. Qed.
 
-Lemma bsteps_safe_nosetinit order x s acts2 : forall acts evs b b' e sent,
+Lemma bsteps_safe_nosetinit tabs order x s acts2 : forall acts evs b b' e sent,
   binv acts evs b -> Forall wf_act acts2 ->
   forallb (fun a => negb (is_setinit a)) (acts_to x acts2) = true ->
-  bsteps b order acts2 = (b', e) -> 0 <= sent -> safe (getf b x) s sent ->
+  bsteps tabs b order acts2 = (b', e) -> 0 <= sent -> safe (getf b x) s sent ->
   0 <= sents x s e /\ safe (getf b' x) s (sent + sents x s e).
 Proof.
   induction acts2 as [|a t IH]; intros acts evs b b' e sent I Hwf Hns H Hs S; simpl in H.
   - inversion H; subst. unfold sents. simpl. split; [lia|]. rewrite Z.add_0_r. assumption.
-  - destruct (bstep b order a) as [b1 e1] eqn:E1. destruct (bsteps b1 order t) as [b2 e2] eqn:E2.
+  - destruct (bstep tabs b order a) as [b1 e1] eqn:E1. destruct (bsteps tabs b1 order t) as [b2 e2] eqn:E2.
     inversion H; subst. inversion Hwf; subst. rewrite sents_app.
-    pose proof (bstep_binv _ _ _ _ _ _ _ I H2 E1) as I1.
+    pose proof (bstep_binv _ _ _ _ _ _ _ _ I H2 E1) as I1.
     unfold acts_to in Hns. simpl in Hns.
     destruct (side_eqb (act_side a) x) eqn:E.
     + apply side_eqb_eq in E. simpl in Hns. apply andb_prop in Hns. destruct Hns as [Hna Hns].
@@ -85,7 +139,7 @@ Proof.
       destruct (IH _ _ _ _ _ _ I1 H3 Hns E2 Hs1 S1) as (H4 & S4).
       split; [lia|]. rewrite Z.add_assoc. assumption.
     + assert (Hn : act_side a <> x) by (intros Heq; rewrite Heq, side_eqb_refl in E; discriminate).
-      destruct (bstep_other_side _ _ _ _ _ x E1 Hn) as (Hg & Ht).
+      destruct (bstep_other_side _ _ _ _ _ _ x E1 Hn) as (Hg & Ht).
       rewrite (sents_nil_side _ _ _ Ht). rewrite <- Hg in S.
       destruct (IH _ _ _ _ _ _ I1 H3 Hns E2 Hs S) as (H4 & S4). split; [lia|]. assumption.
 Qed.
@@ -96,16 +150,16 @@ Definition shape_ok (x : side) (acts2 : list action) : Prop :=
   | _ :: r => forallb (fun a => negb (is_setinit a)) r = true
   end.
 
-Lemma bsteps_safe order x s acts2 : forall acts evs b b' e,
+Lemma bsteps_safe tabs order x s acts2 : forall acts evs b b' e,
   binv acts evs b -> Forall wf_act acts2 -> shape_ok x acts2 ->
-  bsteps b order acts2 = (b', e) ->
+  bsteps tabs b order acts2 = (b', e) ->
   0 <= sents x s e /\ safe (getf b' x) s (sents x s e).
 Proof.
   induction acts2 as [|a t IH]; intros acts evs b b' e I Hwf Hsh H; simpl in H.
   - inversion H; subst. unfold sents. simpl. split; [lia|]. left. reflexivity.
-  - destruct (bstep b order a) as [b1 e1] eqn:E1. destruct (bsteps b1 order t) as [b2 e2] eqn:E2.
+  - destruct (bstep tabs b order a) as [b1 e1] eqn:E1. destruct (bsteps tabs b1 order t) as [b2 e2] eqn:E2.
     inversion H; subst. inversion Hwf; subst. rewrite sents_app.
-    pose proof (bstep_binv _ _ _ _ _ _ _ I H2 E1) as I1.
+    pose proof (bstep_binv _ _ _ _ _ _ _ _ I H2 E1) as I1.
     unfold shape_ok, acts_to in Hsh. simpl in Hsh.
     destruct (side_eqb (act_side a) x) eqn:E.
     + apply side_eqb_eq in E.
@@ -115,10 +169,10 @@ Proof.
       destruct (flow_act_safe _ _ _ _ _ _ _ _ s 0 (I x) E H2 F (Z.le_refl 0) (or_intror eq_refl) S0) as (H1 & S1).
       rewrite sents_dsum by reflexivity. rewrite Z.add_0_l in S1.
       rewrite <- (getf_setf_same b x x') in S1.
-      destruct (bsteps_safe_nosetinit order x s t _ _ _ _ _ _ I1 H3 Hsh E2 H1 S1) as (H4 & S4).
+      destruct (bsteps_safe_nosetinit tabs order x s t _ _ _ _ _ _ I1 H3 Hsh E2 H1 S1) as (H4 & S4).
       split; [lia|assumption].
     + assert (Hn : act_side a <> x) by (intros Heq; rewrite Heq, side_eqb_refl in E; discriminate).
-      destruct (bstep_other_side _ _ _ _ _ x E1 Hn) as (Hg & Ht).
+      destruct (bstep_other_side _ _ _ _ _ _ x E1 Hn) as (Hg & Ht).
       rewrite (sents_nil_side _ _ _ Ht).
       destruct (IH _ _ _ _ _ I1 H3 Hsh E2) as (H4 & S4). split; [lia|]. assumption.
 Qed.
@@ -162,14 +216,20 @@ Proof.
   - rewrite to_side_tag_other; [reflexivity|]. destruct x; discriminate.
 Qed.
 
-Lemma bstep_out b order a b' e y s x :
-  wf_act a -> bstep b order a = (b', e) ->
+Lemma isq_stamp t ws : Forall isq ws -> Forall isq (map (stamp t) ws).
+Proof.
+  induction 1 as [|w l [Hc Hd] _ IH]; simpl; constructor; auto.
+  split; [intros s; rewrite stamp_cred; apply Hc|rewrite stamp_is_direct; assumption].
+Qed.
+
+Lemma bstep_out tabs b order a b' e y s x :
+  wf_act a -> bstep tabs b order a = (b', e) ->
   creds y s e = a_cred y s a /\ directs x e = a_dir x a.
 Proof.
   intros Hwf H. unfold bstep in H.
   destruct (flow_act (getf b (act_side a)) order a) as [x' ws] eqn:F. inversion H; subst. clear H.
   destruct a as [t q|t k n|t v|t inc|t k inc|t w]; simpl in *.
-  - apply emit_isq in F. split; [apply creds_isq|apply directs_isq]; assumption.
+  - apply emit_isq in F. apply (isq_stamp (tabs t)) in F. split; [apply creds_isq|apply directs_isq]; assumption.
   - inversion F; subst. unfold creds, directs. split.
     + destruct (side_eqb t y) eqn:E.
       * apply side_eqb_eq in E. subst. rewrite to_side_tag_same. simpl. destruct (N.eqb k s); lia.
@@ -177,13 +237,13 @@ Proof.
     + destruct (side_cases x t) as [-> | ->].
       * rewrite to_side_tag_same. reflexivity.
       * rewrite to_side_tag_other; [reflexivity|]. destruct x; discriminate.
-  - unfold sweep in F. apply sweep_list_isq in F. split; [apply creds_isq|apply directs_isq]; assumption.
+  - unfold sweep in F. apply sweep_list_isq in F. apply (isq_stamp (tabs t)) in F. split; [apply creds_isq|apply directs_isq]; assumption.
   - destruct (sweep _ order) as [x1 w1] eqn:E1. destruct (emit_stream _ 0%N) as [x2 w2] eqn:E2.
     inversion F; subst. unfold sweep in E1. apply sweep_list_isq in E1. apply emit_isq in E2.
-    assert (Hq : Forall isq (w1 ++ w2)) by (apply Forall_app; auto).
+    assert (Hq : Forall isq (map (stamp (tabs t)) (w1 ++ w2))) by (apply isq_stamp, Forall_app; auto).
     split; [apply creds_isq|apply directs_isq]; assumption.
-  - apply emit_isq in F. split; [apply creds_isq|apply directs_isq]; assumption.
-  - inversion F; subst. unfold creds, directs. split.
+  - apply emit_isq in F. apply (isq_stamp (tabs t)) in F. split; [apply creds_isq|apply directs_isq]; assumption.
+  - inversion F; subst. cbn [map]. rewrite (stamp_direct_id _ _ Hwf). unfold creds, directs. split.
     + destruct (side_cases y t) as [-> | ->].
       * rewrite to_side_tag_same. simpl. destruct w; simpl in *; try discriminate; reflexivity.
       * rewrite to_side_tag_other; [reflexivity|]. destruct y; discriminate.
@@ -192,15 +252,15 @@ Proof.
       * rewrite to_side_tag_other; [reflexivity|]. intros Heq. rewrite Heq, side_eqb_refl in E. discriminate.
 Qed.
 
-Lemma bsteps_out order acts2 : forall b b' e y s x,
-  Forall wf_act acts2 -> bsteps b order acts2 = (b', e) ->
+Lemma bsteps_out tabs order acts2 : forall b b' e y s x,
+  Forall wf_act acts2 -> bsteps tabs b order acts2 = (b', e) ->
   creds y s e = zsum (map (a_cred y s) acts2) /\ directs x e = flat_map (a_dir x) acts2.
 Proof.
   induction acts2 as [|a t IH]; intros b b' e y s x Hwf H; simpl in H.
   - inversion H; subst. split; reflexivity.
-  - destruct (bstep b order a) as [b1 e1] eqn:E1. destruct (bsteps b1 order t) as [b2 e2] eqn:E2.
+  - destruct (bstep tabs b order a) as [b1 e1] eqn:E1. destruct (bsteps tabs b1 order t) as [b2 e2] eqn:E2.
     inversion H; subst. inversion Hwf; subst.
-    destruct (bstep_out _ _ _ _ _ y s x H2 E1) as (A1 & A2).
+    destruct (bstep_out _ _ _ _ _ _ y s x H2 E1) as (A1 & A2).
     destruct (IH _ _ _ y s x H3 E2) as (B1 & B2).
     rewrite creds_app, directs_app, A1, A2, B1, B2. simpl. split; reflexivity.
 Qed.
